@@ -433,14 +433,19 @@ class Interp:
             if isinstance(it, (Opaque, Sym, Tmpl)) or not hasattr(it, "__iter__"):
                 raise Unsupported(f"iteration over {it!r} in {U(s.iter)}")
             try:
-                for x in list(it):
+                live = it if isinstance(it, list) else list(it)  # Python iterates a list live (mutation during iteration matters)
+                i = 0
+                while i < len(live):
+                    x = live[i]
+                    i += 1
+                    if i > 4096:
+                        raise Unsupported("unbounded for loop")
                     self.assign(s.target, x, env, cls)
                     try:
                         self.block(s.body, env, cls)
                     except _Continue:
                         continue
-                else:
-                    self.block(s.orelse, env, cls)
+                self.block(s.orelse, env, cls)
             except _Break:
                 pass
         elif isinstance(s, ast.While):
@@ -545,6 +550,8 @@ class Interp:
                     obj.fields[t.attr] = v
             elif isinstance(obj, Opaque):
                 self.events.append(("store", obj, t.attr, v))
+            elif obj is None or isinstance(obj, (str, int, float, bool, list, tuple, dict, set)):
+                raise Raised("AttributeError", f"cannot set {t.attr} on {type(obj).__name__}")
             else:
                 raise Unsupported(f"attribute store on {obj!r}")
         elif isinstance(t, ast.Subscript):
@@ -786,10 +793,18 @@ class Interp:
                 return StrMethod(obj.value, attr)
         if isinstance(obj, Tok) and attr in ("type", "value"):
             return getattr(obj, attr)
-        if isinstance(obj, (str, Tmpl)):
+        if isinstance(obj, str):
+            if not hasattr(str, attr):
+                raise Raised("AttributeError", f"str.{attr}")
             return StrMethod(obj, attr)
-        if isinstance(obj, (list, dict)):
+        if isinstance(obj, Tmpl):
+            return StrMethod(obj, attr)
+        if isinstance(obj, (list, dict, tuple, set)):
+            if not hasattr(type(obj), attr):
+                raise Raised("AttributeError", f"{type(obj).__name__}.{attr}")
             return ContainerMethod(obj, attr)
+        if obj is None or isinstance(obj, (bool, int, float)):
+            raise Raised("AttributeError", f"{type(obj).__name__}.{attr}")
         if isinstance(obj, Opaque):
             return Opaque(f"{obj.text}.{attr}")
         if isinstance(obj, Sym):
@@ -1028,6 +1043,11 @@ class ContainerMethod:
     def call(self, interp, args, kwargs, text):
         c = self.c
         interp.events.append(("container", self.name, c, args))
+        if isinstance(c, set) and self.name in ("add", "discard", "remove", "clear", "pop", "update"):
+            try:
+                return getattr(c, self.name)(*args)
+            except KeyError:
+                raise Raised("KeyError")
         if self.name in ("add", "discard") and isinstance(c, list):
             if self.name == "add" and not any(x is args[0] for x in c):
                 c.append(args[0])
@@ -1054,7 +1074,7 @@ class Builtin:
 
 
 def _b_len(i, a, k, t):
-    if isinstance(a[0], (list, tuple, str, dict)):
+    if isinstance(a[0], (list, tuple, str, dict, set)):
         return len(a[0])
     return Opaque(f"len({to_text(a[0])})")
 
@@ -1260,7 +1280,10 @@ def _b_dir(i, a, k, t):
 
 
 def _b_set(i, a, k, t):
-    return list(dict.fromkeys(a[0])) if a else []
+    try:
+        return set(a[0]) if a else set()
+    except TypeError:
+        return list(dict.fromkeys(a[0]))
 
 
 BUILTINS = {
